@@ -96,6 +96,28 @@ def run(ctx):
             okk = any(y[0] == "field" and y[2] == "remote_addr" for y in subterms(ip))
     ctx.check(okk and not trues, "R2", "otherwise=not(bucket.check(remote-ip,cost))", ctx.where(body),
               "in every other case the decision is the negated bucket check charged to the remote address")
+    # the bucket key is the source IP address alone (a port or scope in the key lets one source use many buckets)
+    lim_sig = P.sigs.get("erbium::dns::IpRateLimiter::check")
+    if lim_sig is None:
+        ctx.bad("R2", "limiter-not-found", "", "")
+    else:
+        kty = lim_sig["inputs"][1] if len(lim_sig["inputs"]) > 1 else "?"
+        ctx.check(kty == "std::net::IpAddr", "R2", "bucket-key-type=IpAddr" if kty == "std::net::IpAddr" else "bucket-key-type=%s" % kty.split("::")[-1],
+                  ctx.where(P.bodies["erbium::dns::IpRateLimiter::check"]),
+                  "the limiter must be keyed by the source IP address only (key type %s): including the UDP source port or other "
+                  "attacker-chosen parts gives every port its own buckets and the per-source bound is lost" % kty)
+        for fid, hb in P.bodies.items():
+            if fid.startswith("erbium::dns::IpRateLimiter::hash"):
+                ctx.saw(hb)
+                Th = terms(P, hb)
+                hashed = []
+                for bb, tm in hb.calls():
+                    if (callee_name(tm) or "").endswith("::hash") and "Hash" in (callee_name(tm) or ""):
+                        a = norm(Th.call_args(bb)[0])
+                        if a[0] == "param":
+                            hashed.append(hb.local_ty(a[1]))
+                ctx.check("std::net::IpAddr" in hashed and all(h in ("std::net::IpAddr", "u64") for h in hashed), "R2", "bucket-hash-inputs=seed+ip", ctx.where(hb), "hashed: %s" % hashed)
+
     # ---------------- R4: constant consistency
     MAXT = _const_u(P, "erbium::dns::bucket::GenericTokenBucket::MAX_TOKENS")
     TPS = _const_u(P, "erbium::dns::bucket::GenericTokenBucket::TOKENS_PER_SECOND")
@@ -210,6 +232,38 @@ def run(ctx):
                 a = [norm(x) for x in Tb.call_args(bb)]
                 okk = all(any(y[0] == "await" and y[1][0] == "call" and str(y[1][1]).endswith("CookieKeys::get_keys") for y in subterms(x)) for x in a[1:3]) and a[1] != a[2]
                 ctx.check(okk, "R3", "keys=current+previous", ctx.where(b, tm["sp"]), "")
+    # both keys are random secrets before the first cookie is checked
+    nk = "erbium::dns::CookieKeys::new"
+    rk = "erbium::dns::CookieKeys::rotate"
+    if nk in P.bodies and rk in P.bodies:
+        b = P.bodies[nk]
+        ctx.saw(b)
+        Tb = terms(P, b)
+        rets = [norm(Tb.call_term(tm, bb)) for bb, tm in b.calls() if tm["dest"] == (0,)]
+        depth = 0
+        for r in rets:
+            d = 0
+            x = r
+            while x[0] == "call" and x[1] == rk:
+                d += 1
+                x = norm(x[2][0])
+            depth = max(depth, d)
+        ctx.check(depth >= 2, "R3", "both-cookie-keys-random-at-start:rotations=%d" % depth, ctx.where(b),
+                  "a freshly built key pair holds default (all-zero) keys; it must be rotated twice so that neither the current nor the "
+                  "previous key is a known constant — with one rotation the previous key is all zeroes until the first scheduled "
+                  "rotation and anyone can forge a cookie that validates (rotations applied: %d)" % depth)
+        rb = P.bodies[rk]
+        ctx.saw(rb)
+        Tr = terms(P, rb)
+        okk = False
+        for _, bb, idx, st in find_aggs(P, "dns::CookieKeys", [rb]):
+            t = norm(Tr.rvalue(st["rv"], bb, idx))
+            f = dict(t[3])
+            prev = norm(f["previous"])
+            okk = prev[0] == "field" and prev[2] == "current" and norm(prev[1])[0] == "param"
+            filled = any((callee_name(tm) or "").endswith("try_fill_bytes") or (callee_name(tm) or "").endswith("fill_bytes") or (callee_name(tm) or "").endswith("::fill") for _, tm in rb.calls())
+            okk = okk and filled
+        ctx.check(okk, "R3", "rotate:previous<-current,current<-rng", ctx.where(rb), "")
     gk = "erbium::dns::CookieKeys::get_keys"
     if gk in P.bodies:
         b = body_or_coroutine(P, gk)
